@@ -26,7 +26,8 @@ Tuples == <<
    Tup(PYPI, <<>>, <<65,95,98>>, one, <<>>, <<>>),                                               \* pypi A_b
    Tup(NUGET, <<>>, <<65,198>>, <<>>, <<>>, <<>>),                                               \* nuget A AE
    Tup(MAVEN, << <<111,46,97>> >>, <<105,111>>, one, <<>>, <<>>),                                \* maven o.a/io@1
-   Tup(t, <<>>, <<97,32,34,60,123,37>>, <<32>>, << <<k, <<32,43,37>>>> >>, << <<96,32>> >>)       \* space quote < { % backtick
+   Tup(t, <<>>, <<97,32,34,60,123,37>>, <<32>>, << <<k, <<32,43,37>>>> >>, << <<96,32>> >>),      \* space quote < { % backtick
+   Tup(t, << <<46>> >>, n, <<49,47>>, << <<k, <<32>>>> >>, << <<46,46,46>> >>)                    \* ns ".", version ending in '/', value " ", subpath "..."
 >>
 ASSUME \A i \in 1..Len(Tuples) : LegalTuple(Tuples[i])
 
